@@ -33,6 +33,28 @@ theorem getSize_wf (n : Nat) : ∀ (b : Buf), WF n b → getSize b = .size n ∨
   | .task _ dg _ _, h => Or.inl (by simp only [getSize]; rw [h.1])
   | .eh _ dg, h => Or.inl (by simp only [getSize]; rw [h.1])
 
+theorem intoWriterF_np (n : Nat) : ∀ (b : Buf), WF n b → NoPanic (intoWriterF b).res
+  | .err k, h => by simp only [intoWriterF]; exact (intoWriter_good n _ h).1
+  | .bytes d, h => by simp only [intoWriterF]; exact (intoWriter_good n _ h).1
+  | .readerAt d, h => by simp only [intoWriterF]; exact (intoWriter_good n _ h).1
+  | .stream c sz q d, h => by simp only [intoWriterF]; exact (intoWriter_good n _ h).1
+  | .cloned base dg sibs, h => by simp only [intoWriterF]; exact (intoWriter_good n _ h).1
+  | .task base dg t r, h => by
+    have ih := intoWriterF_np n base h.2
+    have g := afterTask_np (intoWriter base) t r (intoWriter_good n base h.2).1
+    simp only [intoWriterF]
+    cases hb : (intoWriterF base).res with
+    | panic => exact absurd hb ih
+    | err k => exact g
+    | ok d s => exact g
+  | .eh base dg, h => by
+    have g := cr_good n (.eh base dg) true h
+    simp only [intoWriterF]
+    cases hb : (cr (.eh base dg) true).res with
+    | panic => exact absurd hb g.1
+    | err k => simp [NoPanic]
+    | ok d s => simp [NoPanic]
+
 theorem call_np (n : Nat) (b : Buf) (h : WF n b) (m : Method) : NoPanic (call b m).res := by
   cases m with
   | getSizeBytes =>
@@ -47,6 +69,7 @@ theorem call_np (n : Nat) (b : Buf) (h : WF n b) (m : Method) : NoPanic (call b 
   | toChunkReader off all => exact toChunkReader_np n b off all h
   | toReader all => exact toReader_np n b all h
   | discard => exact discard_np n b h
+  | intoWriterFailing k => exact intoWriterF_np n b h
 
 /-! ### building -/
 
